@@ -9,7 +9,8 @@ re-reads the store (a nested call may have changed it).  A `StateMachine*` is th
 object; `curr_state_->…` on `nullptr` / `sub_sm->…` on `nullptr` is `unmodelled` (the C++ has
 undefined behaviour there).  A method invocation — from the harness, from a script, or
 `sub_sm->start()/run()/stop()` — is `rec`; `aCall` ties the knot with a fuel that bounds the depth
-of nested invocations (out of fuel = `unmodelled`; the driver gives `2·#machines + 4`).
+of nested invocations (out of fuel = `oof`, printed `FOREIGN`; the driver gives `2·#machines + 4`;
+`#machines + 1` suffices: `C16_arena_fuel_suffices`).
 
 `Fix` selects the code: `⟨true, true⟩` = /repo with patches C16-01 and C16-02 (what the driver
 runs), `⟨true, false⟩` = C16-01 only (the tree as found in round 2).
@@ -67,6 +68,11 @@ def aProbe (rec : Rec) (self : Nat) (g : Arena) (mk : Bool → Kind) (p : Option
   | some sc => let r := aScript rec self g sc; (r.1, ⟨self, mk true⟩ :: r.2)
 
 def unm (k : Nat) : ATrace := [⟨k, .unmodelled⟩]
+
+/-- out of fuel (in the arena model `.foreign` is used for nothing else; the driver prints it as
+`FOREIGN k`, which the harness never prints).  Theorem `C16_arena_fuel_suffices`: with more fuel
+than machine objects this is never produced. -/
+def oof (k : Nat) : ATrace := [⟨k, .foreign k⟩]
 
 /-- `curr_state_->sub_sm-><method>()` guarded by `if (curr_state_->sub_sm != nullptr)` -/
 def aSubCall (rec : Rec) (g : Arena) (k : Nat) (c : Call) : Arena × ATrace :=
@@ -157,6 +163,65 @@ def aDelegate (fix : Fix) (rec : Rec) (g : Arena) (k : Nat) (e : Event) : Arena 
             let s := aSubCall rec r.1 k .stop
             ((if fix.holdGuard then s.1.decLevel k else s.1), none, r.2.2 ++ s.2)
 
+/-- the event-handler block of `run()`: `events.find(event.id)`, else `default_event`; `-1` = no handler / no target -/
+def aHandlers (rec : Rec) (g : Arena) (k : Nat) (cs : StateDef Nat) (e : Event) : Arena × Int × ATrace :=
+  let g1 := g.incLevel k
+  let h : Arena × Int × ATrace :=
+    match cs.events.find? (fun p => p.1 == e.id) with
+    | some p => let s := aScript rec k g1 p.2.script
+                (s.1, p.2.eval e, ⟨k, .handler cs.id (some p.1) e (p.2.eval e)⟩ :: s.2)
+    | none =>
+      match cs.dflt with
+      | some hd => let s := aScript rec k g1 hd.script
+                   (s.1, hd.eval e, ⟨k, .handler cs.id none e (hd.eval e)⟩ :: s.2)
+      | none => (g1, -1, [])
+  (h.1.decLevel k, h.2.1, h.2.2)
+
+/-- target selection: the handler's answer, else the route scan (`none` = `return false`) -/
+def aSelect (rec : Rec) (g2 : Arena) (k : Nat) (e : Event) (hret : Int) :
+    Arena × Option (StateId × Option Nat × Option Script) × ATrace :=
+  if hret = -1 then
+    match g2.curState k with
+    | none => (g2, none, unm k)
+    | some cs2 =>
+      let sc := aRouteScan rec k cs2.id e 0 (g2.incLevel k) cs2.routes
+      match sc.2.1 with
+      | none => (sc.1.decLevel k, none, sc.2.2)
+      | some (i, r) => (sc.1.decLevel k, some (r.to, some i, r.action), sc.2.2)
+  else (g2, some (hret, none, none), [])
+
+/-- `if (curr_state_->sub_sm != nullptr) { …; curr_state_->sub_sm->run(event); }` (second statement of the block) -/
+def aSubRun (rec : Rec) (g : Arena) (k : Nat) (e : Event) : Arena × ATrace :=
+  match g.curState k with
+  | some c1 => if c1.sub.isSome then aSubCall rec g k (.run e) else (g, [])
+  | none => (g, [])
+
+/-- the tail of `run()` from `next_state_ = findState(next_state_id)` on -/
+def aTransition (rec : Rec) (g3 : Arena) (k : Nat) (e : Event) (nextId : StateId) (ridx : Option Nat)
+    (action : Option Script) : Arena × Bool × ATrace :=
+  match (g3.get k).resolve nextId with
+  | none => (g3.updRt k fun rt => { rt with next := none }, false, [])       -- "Should not happen"
+  | some ts =>
+    let g4 := (g3.updRt k fun rt => { rt with next := some ts.id }).incLevel k
+    let x := aExit rec g4 k e
+    -- last_state_ = curr_state_; curr_state_ = nullptr;
+    let src : StateId := optInt (x.1.get k).rt.curr
+    let g5 := x.1.updRt k fun rt => { rt with last := rt.curr, curr := none }
+    let a := aProbe rec k g5 (.action src ridx e) action
+    -- curr_state_ = next_state_; next_state_ = nullptr;
+    let g6 := a.1.updRt k fun rt => { rt with curr := rt.next, next := none }
+    match g6.curState k with
+    | none => (g6, false, x.2 ++ a.2 ++ unm k)
+    | some ns =>
+      let en := aProbe rec k g6 (.enter ns.id e) ns.enter
+      -- state_changed_cb_(last_state_->id, curr_state_->id, event)
+      let m7 := en.1.get k
+      let cb := aProbe rec k en.1 (.notify (optInt m7.rt.last) (optInt m7.rt.curr) e) m7.cb
+      -- curr_state_->sub_sm->start(); curr_state_->sub_sm->run(event);
+      let s1 := aSubCall rec cb.1 k .start
+      let s2 := aSubRun rec s1.1 k e
+      (s2.1.decLevel k, true, x.2 ++ a.2 ++ en.2 ++ cb.2 ++ s1.2 ++ s2.2)
+
 /-- `Impl::run(Event)` -/
 def aRun (fix : Fix) (rec : Rec) (g : Arena) (k : Nat) (e : Event) : Arena × Bool × ATrace :=
   match runReject (g.get k).rt with
@@ -166,65 +231,21 @@ def aRun (fix : Fix) (rec : Rec) (g : Arena) (k : Nat) (e : Event) : Arena × Bo
     match d.2.1 with
     | some ret => (d.1, ret, d.2.2)
     | none =>
-      let g := d.1
-      -- event handlers
-      match g.curState k with
-      | none => (g, false, d.2.2 ++ unm k)
+      match d.1.curState k with
+      | none => (d.1, false, d.2.2 ++ unm k)
       | some cs =>
-        let g1 := g.incLevel k
-        let h : Arena × Int × ATrace :=
-          match cs.events.find? (fun p => p.1 == e.id) with
-          | some p => let s := aScript rec k g1 p.2.script
-                      (s.1, p.2.eval e, ⟨k, .handler cs.id (some p.1) e (p.2.eval e)⟩ :: s.2)
-          | none =>
-            match cs.dflt with
-            | some hd => let s := aScript rec k g1 hd.script
-                         (s.1, hd.eval e, ⟨k, .handler cs.id none e (hd.eval e)⟩ :: s.2)
-            | none => (g1, -1, [])
-        let g2 := h.1.decLevel k
-        -- route
-        let sel : Arena × Option (StateId × Option Nat × Option Script) × ATrace :=
-          if h.2.1 = -1 then
-            match g2.curState k with
-            | none => (g2, none, unm k)
-            | some cs2 =>
-              let sc := aRouteScan rec k cs2.id e 0 (g2.incLevel k) cs2.routes
-              match sc.2.1 with
-              | none => (sc.1.decLevel k, none, sc.2.2)
-              | some (i, r) => (sc.1.decLevel k, some (r.to, some i, r.action), sc.2.2)
-          else (g2, some (h.2.1, none, none), [])
+        let h := aHandlers rec d.1 k cs e
+        let sel := aSelect rec h.1 k e h.2.1
         let pre := d.2.2 ++ h.2.2 ++ sel.2.2
         match sel.2.1 with
         | none => (sel.1, false, pre)
         | some (nextId, ridx, action) =>
-          let g3 := sel.1
-          match (g3.get k).resolve nextId with
-          | none => (g3.updRt k fun rt => { rt with next := none }, false, pre)       -- "Should not happen"
-          | some ts =>
-            let g4 := (g3.updRt k fun rt => { rt with next := some ts.id }).incLevel k
-            let x := aExit rec g4 k e
-            -- last_state_ = curr_state_; curr_state_ = nullptr;
-            let src : StateId := optInt (x.1.get k).rt.curr
-            let g5 := x.1.updRt k fun rt => { rt with last := rt.curr, curr := none }
-            let a := aProbe rec k g5 (.action src ridx e) action
-            -- curr_state_ = next_state_; next_state_ = nullptr;
-            let g6 := a.1.updRt k fun rt => { rt with curr := rt.next, next := none }
-            match g6.curState k with
-            | none => (g6, false, pre ++ x.2 ++ a.2 ++ unm k)
-            | some ns =>
-              let en := aProbe rec k g6 (.enter ns.id e) ns.enter
-              -- state_changed_cb_(last_state_->id, curr_state_->id, event)
-              let m7 := en.1.get k
-              let cb := aProbe rec k en.1 (.notify (optInt m7.rt.last) (optInt m7.rt.curr) e) m7.cb
-              -- curr_state_->sub_sm->start(); curr_state_->sub_sm->run(event);
-              let s1 := aSubCall rec cb.1 k .start
-              let hasSub := match s1.1.curState k with | some c1 => c1.sub.isSome | none => false
-              let s2 := if hasSub then aSubCall rec s1.1 k (.run e) else (s1.1, [])
-              (s2.1.decLevel k, true, pre ++ x.2 ++ a.2 ++ en.2 ++ cb.2 ++ s1.2 ++ s2.2)
+          let t := aTransition rec sel.1 k e nextId ridx action
+          (t.1, t.2.1, pre ++ t.2.2)
 
 /-- a method invocation on machine `k`, with at most `fuel` nested invocations below it -/
 def aCall (fix : Fix) : Nat → Rec
-  | 0, g, k, _ => (g, false, unm k)
+  | 0, g, k, _ => (g, false, oof k)
   | f + 1, g, k, c =>
     if k ≥ g.length then (g, false, unm k) else
     match c with
